@@ -10,7 +10,9 @@ HMapKinds ==
   IF m.out.r # "ok" THEN <<>>
   ELSE LET names == SortedSeq({k \in DOMAIN m.out.hl : \A j \in DOMAIN m.out.hl : j < k => m.out.hl[j][1] # m.out.hl[k][1]})
            nm(i) == m.out.hl[names[i]][1]
-       IN  <<[kind |-> "complete", name |-> "", res |-> CallOutcome(m.out.hl, HNames, {}, FALSE)]>>
+       IN  <<[kind |-> "complete", name |-> "", res |-> CallOutcome(m.out.hl, HNames, {}, FALSE)],
+             \* a map may name more handlers than this text instantiated (one callable per handler of the schema)
+             [kind |-> "extra", name |-> "", res |-> CallOutcome(m.out.hl, HNames \cup {"zcv-surplus", "zcv-none"}, {"zcv-none"}, FALSE)]>>
            \o [i \in DOMAIN names |-> [kind |-> "missing", name |-> nm(i),
                                         res |-> CallOutcome(m.out.hl, HNames \ {nm(i)}, {}, FALSE)]]
            \o [i \in DOMAIN names |-> [kind |-> "none", name |-> nm(i),
